@@ -981,6 +981,9 @@ class Interp:
                     c2 = self.base_classdef(c2)
             if attr == "__name__":
                 return VStr(o.name)
+            h = self.reg.ext_models.get(f"classattr:{o.name}.{attr}")
+            if h is not None:
+                return h(self)       # e.g. zope IFoo.providedBy, modelled by the property module
             raise OutOfSubset(f"class attribute {o.name}.{attr}")
         if isinstance(o, VFunc) and attr == "__name__":
             return VStr(o.name or "f")
